@@ -93,6 +93,9 @@ def Re.need : Re → Nat → Nat
   | .group _ r, n => r.need n + 1
   | _, _ => 1
 
+/-- the bytes between position `p` and a later position `q` of the same text -/
+def Pos.span (p q : Pos) : Bytes := p.after.take (q.off - p.off)
+
 /-- the spans `(start, end, _)` are in order, do not overlap, start at or after `cur` and end at or
 before `bound` -/
 def SpansIn (bound : Nat) : Nat → List (Nat × Nat × Caps) → Prop
